@@ -42,6 +42,13 @@ FLAVOURS = {
         "extra_src": ["alloc.cpp"],
         "workers": 16,
     },
+    # only for `selftest coverage`: which library code do the simulated runs reach?
+    "cov": {
+        "cxx": "clang++",
+        "flags": "-O0 -g -fprofile-instr-generate -fcoverage-mapping",
+        "extra_src": ["alloc_stub.cpp"],
+        "workers": 8,
+    },
 }
 
 COMMON_SRC = ["kernel.cpp", "dump.cpp", "monitor.cpp", "ruletable.cpp", "engines.cpp", "importworld.cpp", "modelgen.cpp"]
@@ -265,6 +272,8 @@ def batches_for(prop, tier):
     if prop == "C07":
         return [
             Batch("import", "asan", 160 * (24 if q else 400), {"sweep": 1}, "import/single-fault-sweep"),
+            # the enumerated family: 144 small graphs x {permissive, strict} x every applicable single fault (all of it in the thorough tier)
+            Batch("import", "asan", 160 * (36 if q else 288), {"sweep": 1, "enum": 1}, "import/enumerated-small-graphs-single-fault-sweep"),
             Batch("import", "asan", 3000 if q else 120000, {}, "import/seeded-multi-fault"),
         ]
     if prop == "C09":
@@ -462,6 +471,8 @@ def write_evidence(prop, tier, seed, results, known_status, violations, wall, re
         for k, v in r["totals"].items():
             totals[k] = totals.get(k, 0) + v
         per_batch.append({"batch": r["label"], "engine": r["engine"], "flavour": r["flavour"], "runs": r["runs"],
+                          "exhaustive_over": ("the enumerated family of 144 small import graphs x 2 importer modes x every applicable single fault (slots beyond a graph's fault list repeat the fault-free run)"
+                                              if r["label"].startswith("import/enumerated") and r["runs"] >= 160 * 288 else None),
                           "distinct_fingerprints": len(set(r["fps"].values())), "wall_s": round(r["wall"], 2),
                           "runs_per_hour": int(r["runs"] / max(r["wall"], 1e-6) * 3600),
                           "known_finding_hits": r["known_hits"], "violations": len(r["violations"]) + r["dup_violations"]})
@@ -531,6 +542,28 @@ def selftest_determinism(engine, seeds, count):
     return 0 if bad == 0 else 2
 
 
+def selftest_coverage(count):
+    """Reach: line/function coverage of the library sources by the simulated runs (llvm-cov)."""
+    binaries = build(flavours=("cov",))
+    outdir = os.path.join(OUT, "coverage")
+    shutil.rmtree(outdir, ignore_errors=True)
+    os.makedirs(outdir, exist_ok=True)
+    known_file = os.path.join(outdir, "known.sigs")
+    open(known_file, "w").write("\n".join(sorted(s for f in load_known().get("findings", []) for s in f.get("signatures", []))) + "\n")
+    os.environ["LLVM_PROFILE_FILE"] = os.path.join(outdir, "prof-%8m.profraw")
+    for engine, cfg in (("equiv", {}), ("import", {"sweep": 1}), ("import", {}), ("annot", {}), ("purity", {"layoutaux": 0, "probes": 0}), ("history", {"table": 1}), ("history", {})):
+        b = Batch(engine, "cov", count, cfg)
+        r = run_batch(binaries, b, 1, "quick", known_file, outdir, workers=8)
+        log("coverage batch {} {} runs={} violations={}".format(engine, cfg, r["runs"], len(r["violations"])))
+    prof = os.path.join(outdir, "all.profdata")
+    import glob
+    run(["llvm-profdata-14", "merge", "-sparse", "-o", prof] + glob.glob(os.path.join(outdir, "*.profraw")))
+    rep = run(["llvm-cov-14", "report", binaries["cov"], "-instr-profile=" + prof, "-ignore-filename-regex=(sim/|/usr/|miniconda|build/)"], stdout=subprocess.PIPE, text=True).stdout
+    open(os.path.join(ROOT, "selftest", "COVERAGE.txt"), "w").write(rep)
+    log(rep[-3000:])
+    return 0
+
+
 def main():
     ap = argparse.ArgumentParser()
     sub = ap.add_subparsers(dest="cmd")
@@ -569,6 +602,8 @@ def main():
     if args.cmd == "selftest":
         if args.what == "determinism":
             return selftest_determinism(args.engine, args.seeds, args.count)
+        if args.what == "coverage":
+            return selftest_coverage(args.count)
     ap.print_help()
     return 2
 
